@@ -15,7 +15,7 @@ import json
 from vlib import Infra
 
 
-def gen_vectors(ctx, quick_cfg="GenWire.cfg", thorough_cfg="GenWire_thorough.cfg", tags=("V", "F", "G"),
+def gen_vectors(ctx, quick_cfg="GenWire.cfg", thorough_cfg="GenWire_thorough.cfg", tags=("V", "F", "G", "B"),
                 name="wire-vectors.ndjson"):
     """Design check of the Wire theorems + export of the vectors (one TLC run)."""
     thorough = ctx.tier == "thorough"
